@@ -73,6 +73,82 @@ def _params(fn: ast.FunctionDef) -> List[ast.arg]:
     return a.posonlyargs + a.args
 
 
+_INVERSE = {ast.Eq: ast.NotEq, ast.NotEq: ast.Eq, ast.Lt: ast.GtE, ast.GtE: ast.Lt, ast.Gt: ast.LtE, ast.LtE: ast.Gt, ast.Is: ast.IsNot, ast.IsNot: ast.Is,
+            ast.In: ast.NotIn, ast.NotIn: ast.In}
+
+
+def negate(e: ast.AST) -> ast.AST:
+    """`not e` with the negation pushed inwards (De Morgan, inverse comparison)."""
+    if isinstance(e, ast.UnaryOp) and isinstance(e.op, ast.Not):
+        return e.operand
+    if isinstance(e, ast.Compare) and len(e.ops) == 1 and type(e.ops[0]) in _INVERSE:
+        return ast.Compare(left=e.left, ops=[_INVERSE[type(e.ops[0])]()], comparators=list(e.comparators))
+    if isinstance(e, ast.BoolOp):
+        return _boolop(ast.Or() if isinstance(e.op, ast.And) else ast.And(), [negate(v) for v in e.values])
+    if isinstance(e, ast.Constant) and isinstance(e.value, bool):
+        return ast.Constant(value=not e.value)
+    return ast.UnaryOp(op=ast.Not(), operand=e)
+
+
+def _boolop(op: ast.boolop, values: List[ast.AST]) -> ast.AST:
+    flat: List[ast.AST] = []
+    for v in values:
+        if isinstance(v, ast.BoolOp) and type(v.op) is type(op):
+            flat += v.values
+        else:
+            flat.append(v)
+    return flat[0] if len(flat) == 1 else ast.BoolOp(op=op, values=flat)
+
+
+def if_convert(stmts: List[ast.stmt]) -> Optional[ast.AST]:
+    """the body of a predicate (`if`/`return`, locals assigned once from call-free expressions) as one expression of the same truth value, its tests
+    evaluated in the same order; None when the body has any other statement."""
+    def is_const(e, v):
+        return isinstance(e, ast.Constant) and e.value is v
+
+    def conv(body: List[ast.stmt], env: Dict[str, ast.AST]) -> Optional[ast.AST]:
+        if not body:
+            return None
+        st, rest = body[0], body[1:]
+        if isinstance(st, ast.Pass) or (isinstance(st, ast.Expr) and isinstance(st.value, ast.Constant)):
+            return conv(rest, env)
+        if isinstance(st, ast.Return):
+            if st.value is None:
+                return None
+            return _Subst(dict(env), {}).visit(copy.deepcopy(st.value))
+        if isinstance(st, (ast.Assign, ast.AnnAssign)) and st.value is not None:
+            tg = st.targets[0] if isinstance(st, ast.Assign) and len(st.targets) == 1 else getattr(st, "target", None)
+            if not isinstance(tg, ast.Name) or tg.id in env:
+                return None
+            if any(isinstance(n, (ast.Call, ast.Await, ast.NamedExpr, ast.Yield, ast.YieldFrom)) for n in ast.walk(st.value)):
+                return None  # the local would be evaluated once per use: only call-free values are substituted
+            uses = sum(1 for s in rest for n in ast.walk(s) if isinstance(n, ast.Name) and n.id == tg.id and isinstance(n.ctx, ast.Store))
+            if uses:
+                return None
+            env2 = dict(env)
+            env2[tg.id] = _Subst(dict(env), {}).visit(copy.deepcopy(st.value))
+            return conv(rest, env2)
+        if isinstance(st, ast.If):
+            c = _Subst(dict(env), {}).visit(copy.deepcopy(st.test))
+            a = conv(st.body + rest, env)
+            b = conv(st.orelse + rest, env)
+            if a is None or b is None:
+                return None
+            if is_const(a, False):
+                return _boolop(ast.And(), [negate(c), b])
+            if is_const(a, True):
+                return _boolop(ast.Or(), [c, b])
+            if is_const(b, False):
+                return _boolop(ast.And(), [c, a])
+            if is_const(b, True):
+                return _boolop(ast.Or(), [negate(c), a])
+            return _boolop(ast.Or(), [_boolop(ast.And(), [c, a]), _boolop(ast.And(), [negate(copy.deepcopy(c)), b])])
+        return None
+    if len(stmts) < 2:
+        return None
+    return conv(list(stmts), {})
+
+
 class Inliner:
     def __init__(self, module_name: str, tree: ast.Module):
         self.module = module_name
@@ -200,7 +276,12 @@ class Inliner:
                 owner, fn, bound = hit
                 body = outer._body(fn)
                 if len(body) != 1 or not isinstance(body[0], ast.Return) or body[0].value is None:
-                    return node
+                    # a predicate helper written with early returns (`if c: return False` ... `return e`) and single-assignment locals: ONE boolean
+                    # expression with the same truth value (if-conversion, negations pushed inwards)
+                    single = if_convert(body)
+                    if single is None:
+                        return node
+                    body = [ast.Return(value=single)]
                 b = outer._bind(node, fn, bound, caller_locals)
                 if b is None:
                     return node
